@@ -90,7 +90,7 @@ theorem changeStateBase_erase {sub' : SSub γ} {sub : Sub} (hs : SubSim sub' sub
     (x : Ctx) (t : Trans) (dst : Nat) (s : SSt γ) :
     eraseR (changeStateBase sub' sc cfg x t dst s) = TM.changeState sub sc cfg x t dst s.base := by
   unfold changeStateBase TM.changeState
-  cases cfg.state? t.source with
+  cases cfg.state? (s.base.stateOf x.model) with
   | none => rfl
   | some src =>
     refine bind_sim (callbacks_erase hs sc _ x _ s) (fun _ s1 => ?_)
